@@ -41,7 +41,13 @@ RULE = ('three real simulators on the same (block, initial registers/memories, i
         'every touched address and untouched neighbours; (1c) module designs: one sub-module builder instantiated 2-3 '
         'times, so the design holds several MemBlocks all named "scratch" and RomBlocks all named "lut" with different '
         'contents (memory names need not be unique), plus near-miss names, every memory with its own initial map, '
-        'shared or separate address inputs; (2) random API-built designs (gen_designs, probe Outputs on every internal '
+        'shared or separate address inputs; (1d) hostile names: sweep / random designs whose inputs, outputs, registers, '
+        'internal wires, constants and memories are renamed (WireVector.name setter) from a pool of Python keywords and '
+        'builtins, every identifier found in the code FastSimulation and CompiledSimulation emit NOW for a sample design '
+        '(d, regs, outs, mem_ws, carry, tmplo, lookup, uint64_t, w<uid>_<name> ...), the sanitizers\' temporaries and their '
+        'prefixes, C keywords / libc names, names needing sanitising (spaces, dots, brackets, quotes, backslash, unicode, '
+        'leading digit, trailing newline, format directives, comment markers) and near-duplicates differing only in '
+        'sanitised characters; (2) random API-built designs (gen_designs, probe Outputs on every internal '
         'wire; alternately wide_prob 0.55 and small ones cheap enough to synthesize) plus a few raw truncating '
         'nets; each also optimized and, when its gate count allows, synthesized (merge_io_vectors True/False); a case = '
         '(block variant, stimulus), distinct by hash of its Simulation trace, non-trivial when at least '
